@@ -1967,6 +1967,50 @@ def _see_through_value_memos(mods: dict[str, Module], inv: dict, log: list[str])
             log.append(f"{mod.relpath} {q}: value memo `{cname}[{ktext}]` read as `{ast.unparse(E)[:60]}` ({n_reads} read(s))")
 
 
+def _exitstack_to_try(mods: dict[str, Module], log: list[str]) -> None:
+    """`with contextlib.ExitStack() as stack: A; stack.callback(f, *a); B` (callbacks registered by top-level statements of the body, `stack` used for nothing
+    else) is `A; try: B finally: f(*a)` - callbacks run in reverse order of registration, whatever way the body is left."""
+    n = 0
+    for mod in mods.values():
+        for q, _, fn in _functions_of(mod):
+            for holder in [x for x in ast.walk(fn) if isinstance(getattr(x, "body", None), list)]:
+                for fld in ("body", "orelse", "finalbody"):
+                    blk = getattr(holder, fld, None)
+                    if not isinstance(blk, list):
+                        continue
+                    for i, st in enumerate(list(blk)):
+                        if not (isinstance(st, ast.With) and len(st.items) == 1 and isinstance(st.items[0].context_expr, ast.Call)
+                                and ast.unparse(st.items[0].context_expr.func) in ("contextlib.ExitStack", "ExitStack") and not st.items[0].context_expr.args
+                                and isinstance(st.items[0].optional_vars, ast.Name)):
+                            continue
+                        sv = st.items[0].optional_vars.id
+                        uses = [x for x in ast.walk(st) if isinstance(x, ast.Name) and x.id == sv and isinstance(x.ctx, ast.Load)]
+                        regs = [(k, b) for k, b in enumerate(st.body) if isinstance(b, ast.Expr) and isinstance(b.value, ast.Call) and isinstance(b.value.func, ast.Attribute)
+                                and b.value.func.attr == "callback" and isinstance(b.value.func.value, ast.Name) and b.value.func.value.id == sv and b.value.args
+                                and not any(isinstance(a, ast.Starred) for a in b.value.args)]
+                        if not regs or len(uses) != len(regs):
+                            continue
+
+                        def build(stmts: list[ast.stmt]) -> list[ast.stmt]:
+                            for k, b in enumerate(stmts):
+                                if any(b is r for _, r in regs):
+                                    c = b.value
+                                    call = ast.Expr(value=ast.Call(func=c.args[0], args=list(c.args[1:]), keywords=list(c.keywords)))
+                                    rest = build(stmts[k + 1:]) or [ast.Pass()]
+                                    tr = ast.Try(body=rest, handlers=[], orelse=[], finalbody=[call])
+                                    return [*stmts[:k], ast.copy_location(tr, b)]
+                            return stmts
+                        new = build(list(st.body))
+                        for x in new:
+                            ast.copy_location(x, st) if not hasattr(x, "lineno") else None
+                            ast.fix_missing_locations(x)
+                        idx = next(k for k, y in enumerate(blk) if y is st)
+                        blk[idx:idx + 1] = new
+                        n += 1
+    if n:
+        log.append(f"{n} ExitStack block(s) with registered callbacks read as try/finally")
+
+
 def _canonical_foreach(mods: dict[str, Module], log: list[str]) -> None:
     """Two loop spellings are read as the for-each loop they stand for:
     (1) `i = a; while i < n: BODY; i += 1` (i not otherwise stored in BODY, no break/continue, i dead afterwards) is `for i in range(a, n): BODY`;
@@ -2815,6 +2859,7 @@ def canonicalise(mods: dict[str, Module]) -> dict:
     _inline_new_constants(mods, inv, cm_log)
     align_locals(mods, inv, loc_log)
     _map_to_comprehension(mods, cm_log)
+    _exitstack_to_try(mods, cm_log)
     _flatten_reraising_try(mods, cm_log)
     _see_through_value_memos(mods, inv, cm_log)
     _apply_trampolines(mods, inv, cm_log)
